@@ -14,6 +14,8 @@
 //!             `tick <secs>`    advance the mock clock                               => ok
 //!             `hsw x <win>`    rewrite the window byte of the handshake request travelling towards x => ok | skip
 //!             `due x`          Session::is_ack_due(now, ack timeout)                => 0 | 1
+//!             `tmo x`          Btp::timeout() = Session::is_timed_out(now, 30 s): the connection idle
+//!                              timeout the GATT glue polls (`wait_timeout`) to end the session => 0 | 1
 //! every answer of an end is followed by ` | <14 window fields>`; `panic` marks the end dead.
 use std::collections::VecDeque;
 use std::panic::{catch_unwind, AssertUnwindSafe};
@@ -198,6 +200,14 @@ impl World {
             "due" => {
                 let e = self.end(x);
                 return match catch_unwind(AssertUnwindSafe(|| e.btp.verif_is_ack_due())) {
+                    Ok(true) => "1".into(),
+                    Ok(false) => "0".into(),
+                    Err(_) => "panic".into(),
+                };
+            }
+            "tmo" => {
+                let e = self.end(x);
+                return match catch_unwind(AssertUnwindSafe(|| e.btp.timeout())) {
                     Ok(true) => "1".into(),
                     Ok(false) => "0".into(),
                     Err(_) => "panic".into(),
@@ -391,6 +401,7 @@ fn gen_hostile(r: &mut Rng, out: &mut Out, id: u64, thorough: bool) -> (String, 
         } else if c < 35 {
             g.op(format!("tick {}", *r.pick(&[1u64, 5, 14, 15, 16, 31])));
             g.op("due a".into());
+            g.op("tmo a".into());
         } else if c < 37 {
             do_handshake(&mut g, r, 60);
             msg_in_progress = None;
@@ -664,6 +675,8 @@ fn gen_link(r: &mut Rng, out: &mut Out, thorough: bool) -> (String, Vec<(String,
             _ => {
                 g.op(format!("tick {}", *r.pick(&[1u64, 2, 7, 14, 15, 16, 20])));
                 g.op(format!("due {}", if r.chance(1, 2) { "a" } else { "b" }));
+                g.op("tmo a".into());
+                g.op("tmo b".into());
             }
         }
         if g.w.a.dead || g.w.b.dead {
@@ -681,6 +694,8 @@ fn gen_link(r: &mut Rng, out: &mut Out, thorough: bool) -> (String, Vec<(String,
             fetch_var(&mut g, r, "a", &mut pend_ba);
             if r.chance(1, 6) {
                 g.op("tick 15".into());
+                g.op("tmo a".into());
+                g.op("tmo b".into());
             }
         }
     }
@@ -931,7 +946,7 @@ pub fn gen(a: &Args) -> String {
     }
     let mut r = Rng::new(a.seed);
     let mut out = Out::default();
-    out.buf.push_str("#rule kind h: one real Btp end (responder or initiator, strict/relaxed MTU, various GATT MTUs) fed by a generated hostile peer: noise before the handshake, handshake requests/responses with boundary mtu/window values and mutations, then nearly valid data/ack segments built from the end's real state (right/wrong sequence number, valid/stale/bogus acknowledgement, single- and multi-segment SDUs with right/wrong lengths and flags, window overrun, repeated handshakes), interleaved with send/poll/fetch/tick; kind r: the real RingBuf<N> (N in 1..3166) driven directly with pushes (0..2N+3 bytes, overflow), pops, push_byte/pop_byte/clear in four fill profiles; kind l: two real Btp ends joined by FIFO queues under a random schedule of send/poll/deliver/fetch/tick with message lengths 0..1233 around the segment size, six scheduler profiles incl. long runs (sequence wrap) and slow applications (withheld acks, ack timers), plus (every 50th case) the scripted wrap profile: the sender is fast-forwarded to j segments before the 255->0 wrap-around of its sequence number, sends on across the wrap while acknowledgements lag by 1..window-1 segments (a partial acknowledgement from before the wrap arrives after a segment from beyond it), then fills its whole window while the peer sends no acknowledgement (not polled / application not fetching), several wraps per case, windows 3..79; in all link profiles the application fetches with a buffer from {1, 16, 512, len-1, len, 1232, 2048} (6 of 14 fetches not 2048: truncating fetches), and (every 50th case) the scripted travel profile: 14..30 medium/large messages in a row, each fetched with such a buffer, so that the start index of the 3166-byte receive ring travels around the storage several times per case; non-trivial = (h) at least one segment accepted and one refused, (l) at least one message fetched and four segments sent, (r) at least one pop handed out bytes; distinct = by operation list\n");
+    out.buf.push_str("#rule kind h: one real Btp end (responder or initiator, strict/relaxed MTU, various GATT MTUs) fed by a generated hostile peer: noise before the handshake, handshake requests/responses with boundary mtu/window values and mutations, then nearly valid data/ack segments built from the end's real state (right/wrong sequence number, valid/stale/bogus acknowledgement, single- and multi-segment SDUs with right/wrong lengths and flags, window overrun, repeated handshakes), interleaved with send/poll/fetch/tick and tmo (Btp::timeout(), the 30 s idle timeout, after every tick in kinds h and l); kind r: the real RingBuf<N> (N in 1..3166) driven directly with pushes (0..2N+3 bytes, overflow), pops, push_byte/pop_byte/clear in four fill profiles; kind l: two real Btp ends joined by FIFO queues under a random schedule of send/poll/deliver/fetch/tick with message lengths 0..1233 around the segment size, six scheduler profiles incl. long runs (sequence wrap) and slow applications (withheld acks, ack timers), plus (every 50th case) the scripted wrap profile: the sender is fast-forwarded to j segments before the 255->0 wrap-around of its sequence number, sends on across the wrap while acknowledgements lag by 1..window-1 segments (a partial acknowledgement from before the wrap arrives after a segment from beyond it), then fills its whole window while the peer sends no acknowledgement (not polled / application not fetching), several wraps per case, windows 3..79; in all link profiles the application fetches with a buffer from {1, 16, 512, len-1, len, 1232, 2048} (6 of 14 fetches not 2048: truncating fetches), and (every 50th case) the scripted travel profile: 14..30 medium/large messages in a row, each fetched with such a buffer, so that the start index of the 3166-byte receive ring travels around the storage several times per case; non-trivial = (h) at least one segment accepted and one refused, (l) at least one message fetched and four segments sent, (r) at least one pop handed out bytes; distinct = by operation list\n");
     let n_cases = if a.thorough { 9000 } else { 3000 };
     for id in 0..n_cases {
         let mut cr = r.fork();
